@@ -29,6 +29,7 @@ UNIT = dict(
     props=["C03", "C01", "C15", "C11"],
     implicit_props=["C03", "C11"],
     prelude=["core_types.rs", "engine.rs"],
+    post_types_prelude=["rkyv.rs"],
     assumptions=[
         "context W (well-formed bytes): every header slice handed to rkyv::archived_root is a valid archive and decoded read_size < 2^40 (damaged bytes are C11's Kani harnesses)",
         "A-ARITH: usize == u64; fewer than 2^32 entries parsed per call (plan.len() < 1024, each range <= 1 GiB)",
@@ -40,6 +41,7 @@ UNIT = dict(
         dict(kind="struct", file=BLK, struct="Entry"),
         dict(kind="struct", file=BLK, struct="Metadata"),
         dict(kind="struct", file=WR, struct="ReadPlan"),
+        dict(kind="prelude", file="rkyv.rs"),
         dict(kind="model", file="parse_model.rs"),
         dict(kind="fn", file=CFG, path="fn checksum64",
              rules=[dict(rule="R8", kind="re", pat=r"for &b in data \{", repl="for i in 0..data.len() { let b = data[i];", why="for &b in slice -> indexed loop")]),
